@@ -19,7 +19,7 @@ Domain of the well-formed generator (what "well-formed document" means here):
     attribute names may be Angular/React style (`*ngIf`, `#ref`, `[prop]`,
     `(click)`, `{...spread}`);
   * text is free of `<`; comments are free of `--`; CDATA free of `]]>`;
-    processing instructions free of `?>` outside quoted strings, quotes balanced;
+    processing instructions free of `?>` outside quoted strings (inside them `?>` may occur), quotes balanced;
   * script/style bodies are free of their own close tag; a script element whose
     type is not a JavaScript type carries ordinary markup children.
 """
@@ -266,18 +266,20 @@ class _Builder:
             self.emit('<![CDATA[' + self.markupish([']]>']) + ']]>')
             self.features.add('cdata')
         elif r < 0.95:
-            # processing instruction: quotes balanced, no `?>` outside quotes
+            # processing instruction: quotes balanced, no `?>` outside quotes; a quoted string may
+            # contain `?>` (and markup after it): the scanner must skip the string as a whole
             parts = []
             for _ in range(rng.choice([0, 1, 2, 3])):
                 if rng.random() < 0.4:
                     q = rng.choice('"\'')
-                    inner = ''.join(rng.choice(['<b>', 'a', ' ', '</a>', '>', '1.0', 'é']) for _ in range(rng.randint(0, 3)))
+                    inner = ''.join(rng.choice(['<b>', 'a', ' ', '</a>', '>', '1.0', 'é', '?>', '?><i>', '?'])
+                                    for _ in range(rng.randint(0, 3)))
+                    if '?>' in inner:
+                        self.features.add('pi-quoted-terminator')
                     parts.append(q + inner + q)
                 else:
                     parts.append(rng.choice([' ', 'version=', 'echo ', '<b>', 'a>b', ';', '? ', '<x y=1>', '</x>']))
             body = ''.join(parts)
-            if '?>' in body:
-                body = body.replace('?>', '? >')
             self.emit('<?' + rng.choice(['xml', 'php', 'x-y', '']) + ' ' + body + '?>')
             self.features.add('pi')
         else:
